@@ -19,7 +19,7 @@ ROOT = os.path.dirname(os.path.dirname(os.path.abspath(__file__)))
 SPEC = os.path.join(ROOT, "spec")
 WORK = os.path.join(ROOT, "work")
 HARNESS_DIR = os.path.join(ROOT, "harness")
-HARNESS_BIN = os.path.join(WORK, "target", "debug", "nv-harness")
+BIN_DIR = os.path.join(WORK, "target", "debug")
 REPLAYS = os.path.join(ROOT, "replays")
 EVIDENCE = os.path.join(ROOT, "evidence")
 REPO = os.environ.get("NV_REPO", "/repo")
@@ -40,15 +40,17 @@ def _env():
     return e
 
 
-def build_harness():
-    """cargo build of the harness against /repo's current working tree (hooks on)."""
+def build_harness(bins=None):
+    """cargo build of the harness binaries (all, or the named ones) against /repo's current working tree
+    (hooks on)."""
     os.makedirs(WORK, exist_ok=True)
     lock = open(os.path.join(WORK, ".build.lock"), "w")
     fcntl.flock(lock, fcntl.LOCK_EX)
     try:
         t = time.time()
         p = subprocess.run(
-            ["cargo", "build", "--offline", "-q"], cwd=HARNESS_DIR, env=_env(),
+            ["cargo", "build", "--offline", "-q"] + [x for b in (bins or []) for x in ("--bin", b)],
+            cwd=HARNESS_DIR, env=_env(),
             stdout=subprocess.PIPE, stderr=subprocess.STDOUT, text=True)
         if p.returncode != 0:
             raise ToolError("harness build failed:\n" + p.stdout[-4000:])
@@ -56,7 +58,7 @@ def build_harness():
     finally:
         fcntl.flock(lock, fcntl.LOCK_UN)
         lock.close()
-    return HARNESS_BIN
+    return BIN_DIR
 
 
 def build_cli():
@@ -80,8 +82,9 @@ def build_cli():
         lock.close()
 
 
-def harness(args, stdin=None, timeout=3600, check=True):
-    p = subprocess.run([HARNESS_BIN] + list(args), input=stdin, stdout=subprocess.PIPE,
+def harness(binary, args, stdin=None, timeout=3600, check=True):
+    """run harness binary `binary` (e.g. "nv-list") with args"""
+    p = subprocess.run([os.path.join(BIN_DIR, binary)] + list(args), input=stdin, stdout=subprocess.PIPE,
                        stderr=subprocess.PIPE, text=True, timeout=timeout)
     if check and p.returncode != 0:
         raise ToolError("harness %s failed (%d):\n%s" % (args, p.returncode, p.stderr[-4000:]))
